@@ -94,10 +94,74 @@ structure Attribute where
   reprIdents : List String := []
   deriving Repr, Inhabited, DecidableEq
 
-/-- What the handlers look at in a field's type. -/
+/-- A field or target type as far as educe looks into it: the kind of the outermost node, its printed tokens, and the
+    type below it (the referent of a reference, the element of an array, the content of an invisible group - the form in
+    which a `$t:ty` fragment of a `macro_rules!` macro reaches a derive). -/
+inductive TyKind | path | ref | array | group | other
+  deriving Repr, Inhabited, DecidableEq
+
+inductive Ty
+  | mk (kind : TyKind) (text : String) (child : Option Ty)
+  deriving Repr, Inhabited
+
+def Ty.kind : Ty → TyKind | .mk k _ _ => k
+def Ty.text : Ty → String | .mk _ t _ => t
+def Ty.child : Ty → Option Ty | .mk _ _ c => c
+
+def Ty.size : Ty → Nat
+  | .mk _ _ none => 1
+  | .mk _ _ (some c) => c.size + 1
+
+/-- `common/type.rs::ungroup`: through every invisible group. -/
+def Ty.ungroup : Ty → Ty
+  | .mk .group _ (some c) => c.ungroup
+  | t => t
+
+theorem Ty.ungroup_size_le : ∀ t : Ty, t.ungroup.size ≤ t.size
+  | .mk .group _ (some c) => by
+    simp only [Ty.ungroup, Ty.size]
+    exact Nat.le_succ_of_le (Ty.ungroup_size_le c)
+  | .mk .path _ _ | .mk .ref _ _ | .mk .array _ _ | .mk .other _ _ | .mk .group _ none => by
+    simp [Ty.ungroup]
+
+/-- Is the type, looked at through invisible groups, a reference? (`dereference_changed(ty).1`) -/
+def Ty.isRef (t : Ty) : Bool :=
+  match t.ungroup with
+  | .mk .ref _ (some _) => true
+  | _ => false
+
+/-- `common/type.rs::dereference`: every reference layer (each looked at through invisible groups) is stripped; a type
+    that is not a reference is returned as it is. -/
+def Ty.dereference (t : Ty) : Ty :=
+  match h : t.ungroup with
+  | .mk .ref _ (some c) => c.dereference
+  | _ => t
+termination_by t.size
+decreasing_by
+  have := Ty.ungroup_size_le t
+  rw [h] at this
+  simp only [Ty.size] at this
+  omega
+
+/-- `into/common.rs::to_hash_type`, printed: a reference type is normalised to `&'static` + its fully dereferenced type. -/
+def Ty.hashTy (t : Ty) : String :=
+  if t.isRef then "& 'static " ++ t.dereference.text else t.text
+
+/-- What `auto_adjust_expr` sees of a field type. -/
 inductive TyShape
   | path (s : String) | refTo (inner : TyShape) | arrayOf (elem : TyShape) | other
   deriving Repr, Inhabited, DecidableEq
+
+/-- The view `auto_adjust_expr` takes: invisible groups are looked through at the three places it inspects. -/
+def Ty.shape (t : Ty) : TyShape :=
+  match t.ungroup with
+  | .mk .path s _ => .path s
+  | .mk .ref _ (some c) =>
+    .refTo (match c.ungroup with
+      | .mk .path s _ => .path s
+      | .mk .array _ (some e) => .arrayOf (match e.ungroup with | .mk .path s _ => .path s | _ => .other)
+      | _ => .other)
+  | _ => .other
 
 structure Field where
   name : Option String := none
@@ -108,6 +172,10 @@ structure Field where
   shape : TyShape := .other
   attrs : List Attribute := []
   deriving Repr, Inhabited, DecidableEq
+
+/-- The four views of a field's type the handlers use, computed from its tree by the model of the type helpers. -/
+def Field.withTy (f : Field) (t : Ty) : Field :=
+  { f with ty := t.text, hashTy := t.hashTy, isRef := t.isRef, derefTy := t.dereference.text, shape := t.shape }
 
 structure Variant where
   name : String := ""
